@@ -222,8 +222,12 @@ KidsDropped(c, f) ==
 \* ca_add_child at the parent (unless it knows the CA already) and
 \* ca_parent_add_or_update at the CA (certauth.rs process_add_parent).  The
 \* parent is asked for the entitlements first (a resource class list query).
+\* (Restriction of this model: keys are identified by their role in the
+\* class, so what is still published for a removed class must have been
+\* withdrawn before a new class under the same parent can get keys.)
 AddParent(s, p, R) ==
     /\ s # Top /\ Ex(s) /\ ~hasp[s]
+    /\ SR(s) \notin tasks /\ RM(s) \notin tasks
     /\ IsCa(p) /\ exists[p] /\ p \notin SlotsOf(s)
     /\ parent[s] \in {"none", p}
     /\ \A t \in SlotsOf(s) \ {s} : ~(hasp[t] /\ parent[t] = p)
@@ -247,10 +251,17 @@ AddParent(s, p, R) ==
 \* removed (everything under it is withdrawn by the next repository
 \* synchronisation) and a ResourceClassRemoved task without requests is left.
 \* The parent keeps its record of the child.
+\* (Restriction of this model: the CA has no children.  A CA that drops and
+\* later regains its class gives the new class a new name, which its
+\* children learn only at their next listing -- class names are not modelled.)
 RemoveParent(s) ==
     /\ s # Top /\ Ex(s) /\ hasp[s]
+    /\ \A t \in SlotsOf(s) : ChildrenOf(t) = {}
     /\ LET p == parent[s]
-           callsIn == p \in AllCA /\ exists[p] /\ cstate[s] # "none" /\ rc[s] # "none"
+           \* (a class whose only key is still waiting for its first
+           \* certificate has nothing to revoke: no message is sent)
+           callsIn == /\ p \in AllCA /\ exists[p] /\ cstate[s] # "none"
+                      /\ rc[s] \notin {"none", "pending"}
            unsus == [x \in Roles |->
                        IF sus[s][x] # NoRes /\ sus[s][x] \subseteq ent[s]
                        THEN sus[s][x] \cap Holdings(p) ELSE NoRes]
@@ -462,7 +473,7 @@ DeleteCa(c) ==
            \* of its parents; a suspended child that calls in is unsuspended
            \* first
            callsIn(s) == /\ parent[s] \in AllCA /\ exists[parent[s]]
-                         /\ cstate[s] # "none" /\ rc[s] # "none"
+                         /\ cstate[s] # "none" /\ rc[s] \notin {"none", "pending"}
            hadCerts(s) == HasCerts(s) \/ \E x \in Roles : UnsuspendCerts(s)[x] # NoRes
            C == {s \in S : callsIn(s)}
        IN  /\ rc' = [s \in AllCA |-> IF s \in S THEN "none" ELSE rc[s]]
